@@ -41,7 +41,7 @@ def bounds(tier):
 
 def units(tier, seed):
     seeds = [0, 1] if tier == "quick" else [0, 1, seed + 2]
-    us = [{"cases": [], "seeds": seeds, "diamond2": True}]
+    us = [{"cases": [], "seeds": seeds, "diamond2": True}, {"cases": [], "seeds": seeds, "siblings": True}]
     # depth 2: mu -> v0 -> v1
     shapes2 = [((), ()), ((), (3,)), ((), (2, 3)), ((3,), (3,)), ((3,), (2, 3))]
     for l0 in LINKS:
@@ -402,11 +402,76 @@ def run_diamond2(res, seeds):
     res.states += 1
 
 
+def run_siblings(res, seeds):
+    """
+    'The result is determined by the seed': n mutually independent parameters with a common child,
+    the identical construction code run several times in one process (all copies kept alive, so the
+    objects sit at different addresses and are created in different allocator states). Every copy,
+    simulated with the same seed and skip set, must end with identical values - for every skip set
+    of size <= 1, both auto-update settings, and again after deep copy.
+    """
+    import copy
+
+    import jax
+    import jax.numpy as jnp
+    import liesel.model as lsl
+    import numpy as np
+    import tensorflow_probability.substrates.jax.distributions as tfd
+
+    keep = []
+
+    def build(n):
+        thetas = [lsl.Var(jnp.float32(0.0), lsl.Dist(tfd.Normal, loc=jnp.float32(i), scale=jnp.float32(1.0)), name=f"th{(7 * i) % n}_{i}") for i in range(n)]
+        mean = lsl.Calc(lambda *t: sum(t), *thetas)
+        y = lsl.Var(jnp.zeros(3, jnp.float32), lsl.Dist(tfd.Normal, loc=mean, scale=jnp.float32(1.0)), name="y")
+        keep.append([bytearray(37 * (len(keep) + 1)) for _ in range(5 + 3 * len(keep))])  # perturb the allocator between copies
+        return lsl.GraphBuilder().add(y).build_model()
+
+    for n in (3, 6):
+        models = [build(n) for _ in range(6)]
+        models.append(copy.deepcopy(models[0]))
+        keep.append(models)
+        names = sorted(models[0].vars)
+        for s in seeds:
+            for skip in [()] + [(nm,) for nm in names if nm != "y"][:3]:
+                for auto in (True, False):
+                    outs = []
+                    for m in models:
+                        m.auto_update = auto
+                        for nm in names:
+                            m.vars[nm].value = jnp.zeros_like(m.vars[nm].value)
+                        m.update()
+                        try:
+                            m.simulate(jax.random.PRNGKey(s), skip=skip)
+                            m.update()
+                        except Exception as e:
+                            if not core.raised_in_repo(e):
+                                raise
+                            res.violation("simulate", "simulate-or-update-raises", {"case": "siblings", "n": n}, f"simulate failed: {type(e).__name__}: {e}")
+                            return
+                        outs.append({nm: np.asarray(m.vars[nm].value).tolist() for nm in names})
+                        res.executions += 1
+                        res.transitions += 1
+                    differing = [i for i, o in enumerate(outs) if o != outs[0]]
+                    res.outcome("siblings", n, len(skip), auto)
+                    if differing:
+                        which = sorted(nm for nm in names if outs[differing[0]][nm] != outs[0][nm])
+                        res.violation("simulate", "not-determined-by-seed", {"case": "siblings", "n": n, "seed": s, "skip": list(skip), "auto": auto},
+                                      f"{n} independent parameters, seed {s}, skip {list(skip)}: identically built model copies {differing} differ from copy 0 in {which}")
+                        return
+                    if len({tuple(np.ravel(outs[0][nm])) for nm in names if nm not in skip and nm != "y"}) < n - len(skip):
+                        res.violation("simulate", "siblings-share-draw", {"case": "siblings", "n": n, "seed": s}, f"independent parameters received identical draws: {outs[0]}")
+                        return
+    res.states += 1
+
+
 def run_unit(unit):
     core.assert_repo()
     res = core.UnitResult(unit)
     if unit.get("diamond2"):
         run_diamond2(res, unit["seeds"])
+    if unit.get("siblings"):
+        run_siblings(res, unit["seeds"])
     for case in unit["cases"]:
         run_case(res, case, unit["seeds"])
         res.sample({"case": case, "seeds": unit["seeds"]}, limit=1)
